@@ -521,6 +521,51 @@ func runC14(c *Ctx) {
 		}
 		c.Floor("C14.1-pod-control-error-constructions", nCtor, 2)
 	}
+	// "all m deletions": every pod the census put on the condemned list is still on it when the scale-down loop runs: the
+	// list is appended to in the census loop and, apart from being sorted, left alone (a count of pods says nothing about
+	// which ordinals they sit at)
+	{
+		var census *ast.RangeStmt
+		ast.Inspect(r.FI.Decl.Body, func(n ast.Node) bool {
+			if rs, ok := n.(*ast.RangeStmt); ok && census == nil {
+				if id, ok := ast.Unparen(rs.X).(*ast.Ident); ok && info.ObjectOf(id) == info.ObjectOf(r.Pods) {
+					census = rs
+				}
+			}
+			return true
+		})
+		nK := 0
+		for _, bd := range fn.Bodies() {
+			ast.Inspect(bd, func(n ast.Node) bool {
+				as, ok := n.(*ast.AssignStmt)
+				if !ok {
+					return true
+				}
+				for i, l := range as.Lhs {
+					id, ok := ast.Unparen(l).(*ast.Ident)
+					if !ok || info.ObjectOf(id) != r.K {
+						continue
+					}
+					nK++
+					name := fmt.Sprintf("%s: %s = %s", r.FI.Obj.Name(), id.Name, clip(types.ExprString(as.Rhs[min(i, len(as.Rhs)-1)]), 50))
+					inCensus := census != nil && contains(census, as)
+					isAppend := false
+					if call, ok := ast.Unparen(as.Rhs[min(i, len(as.Rhs)-1)]).(*ast.CallExpr); ok {
+						if f, ok := call.Fun.(*ast.Ident); ok && f.Name == "append" && len(call.Args) >= 1 {
+							if a0, ok := ast.Unparen(call.Args[0]).(*ast.Ident); ok && info.ObjectOf(a0) == r.K {
+								isAppend = true
+							}
+						}
+					}
+					first := as.Tok == token.DEFINE || (census != nil && as.Pos() < census.Pos())
+					c.Check((inCensus && isAppend) || first, "C14.2-condemned-list-is-complete", name, as.Pos(), "the list is set up before the census and appended to inside it",
+						"the list of pods outside the desired set is given another value after the census: pods the census put there are not deleted in this reconcile")
+				}
+				return true
+			})
+		}
+		c.Floor("C14.2-condemned-list-writes", nK, 1)
+	}
 	// C14.1 only API errors end the pass inside the two loops
 	nRet := 0
 	for _, loop := range []ast.Stmt{r.WLoop, r.KLoop} {
